@@ -586,7 +586,7 @@ func (fr *Frame) moduleCall(st *State, fn *ssa.Function, rt types.Type, args []V
 		if len(args) == 2 && isMod(1) {
 			return set(F.Mul(F.I64(2), ld(1)))
 		}
-	case "Inverse":
+	case "Inverse", "InverseUnitary":
 		if len(args) == 2 && isMod(1) {
 			return set(F.Neg(ld(1)))
 		}
